@@ -37,8 +37,21 @@ import (
 )
 
 func init() {
-	register("C06", propC06)
-	register("C07", propC07)
+	// "for every payload / message length" includes the lengths at which the function must not panic:
+	// the panic-freedom obligations of the security API (C08's safe.* rules, E3) on the functions
+	// reachable from the ciphering resp. the integrity wrapper are necessary for C06 resp. C07
+	register("C06", func(w *World, r *Report, tier string) {
+		propC06(w, r, tier)
+		importRulesIf(w, r, "C08", tier, []string{"safe.*"}, "no payload length may panic: a panic is not the standard's output", func(f Finding) bool {
+			return strings.Contains(f.Msg, "security.NASEncrypt") || strings.Contains(f.Key, "NEA") || strings.Contains(f.Key, "snow3g") || strings.Contains(f.Key, "zuc") || strings.Contains(f.Key, "NASEncrypt")
+		})
+	})
+	register("C07", func(w *World, r *Report, tier string) {
+		propC07(w, r, tier)
+		importRulesIf(w, r, "C08", tier, []string{"safe.*"}, "no message length may panic: a panic is not the standard's output", func(f Finding) bool {
+			return strings.Contains(f.Msg, "security.NASMacCalculate") || strings.Contains(f.Key, "NIA") || strings.Contains(f.Key, "snow3g") || strings.Contains(f.Key, "zuc") || strings.Contains(f.Key, "NASMacCalculate")
+		})
+	})
 }
 
 // ---------------------------------------------------------------------------------------------
